@@ -51,12 +51,12 @@ def mat_arg(name, cmp_all, cmp_first):
               ensures=['C08.mat_%s.position:: r.0 < self.nrows && r.1 < self.ncols' % name,
                        'C08.mat_%s.extremum:: forall|k: int| 0 <= k < self.data.v@.len() ==> rv(#[trigger] self.data.v@[k]) %s rv(at2(self.data.v@, self.ncols as int, r.0 as int, r.1 as int))' % (name, cmp_all),
                        'C08.mat_%s.first:: forall|k: int| 0 <= k < r.0 * self.ncols + r.1 ==> rv(#[trigger] self.data.v@[k]) %s rv(at2(self.data.v@, self.ncols as int, r.0 as int, r.1 as int))' % (name, cmp_first)],
-              hints=[('(am / self.ncols, am % self.ncols)', 'before',
-                      'proof { let q_ = (am / self.ncols) as int; let c_ = self.ncols as int; let n_ = self.nrows as int; '
-                      'assert(n_ * c_ > 0) by(nonlinear_arith) requires n_ > 0, c_ > 0; assert(am < n_ * c_); '
-                      'vstd::arithmetic::div_mod::lemma_fundamental_div_mod(am as int, c_); assert(c_ * q_ == q_ * c_) by(nonlinear_arith); '
-                      'assert(am == q_ * c_ + am % self.ncols); '
-                      'assert(q_ < n_) by { if q_ >= n_ { assert(q_ * c_ >= n_ * c_) by(nonlinear_arith) requires q_ >= n_, c_ > 0; } } }')])
+              tail=('r_', 'let q_ = (am / self.ncols) as int; let c_ = self.ncols as int; let n_ = self.nrows as int; '
+                          'assert(n_ * c_ > 0) by(nonlinear_arith) requires n_ > 0, c_ > 0; assert(am < n_ * c_); '
+                          'vstd::arithmetic::div_mod::lemma_fundamental_div_mod(am as int, c_); assert(c_ * q_ == q_ * c_) by(nonlinear_arith); '
+                          'assert(am == q_ * c_ + am % self.ncols); '
+                          'assert(q_ < n_) by { if q_ >= n_ { assert(q_ * c_ >= n_ * c_) by(nonlinear_arith) requires q_ >= n_, c_ > 0; } } '
+                          'assert(r_.0 == q_ && r_.1 == am % self.ncols); assert(r_.0 * self.ncols + r_.1 == am);'))
 
 
 margmin = mat_arg('argmin', '>=', '>')
